@@ -344,7 +344,7 @@ class CallMixin:
                     v = self.ev1(self.parse_spec(text), st, sf)
                     self.oblige(st, '%s#call[%s].requires[%s]' % (fr.prefix, short, j), truthy(v), {'text': text})
                     st.assume(asz(truthy(v)))
-            self.site_hook(st, fr, c, saved)
+            self.site_hook(st, fr, c, saved, env)
             outs = []
             # exceptional outcomes
             for ename, spec in c.raises.items():
@@ -377,7 +377,7 @@ class CallMixin:
             outs.append((st, res))
         return outs
 
-    def site_hook(self, st, fr, c, caller_env):
+    def site_hook(self, st, fr, c, caller_env, callee_env=None):
         """Call-site clauses of the sidecar: assertions over the caller's locals at a call of `c`
         (`site(caller, callee, ordinal, asserts=[...])`), evaluated in the pre-call state."""
         if fr.spec:
@@ -391,6 +391,8 @@ class CallMixin:
         cf = self.Frame(fr.module, fr.qual, fr.cls, spec=True)
         cf.closure = dict(fr.closure)
         cf.closure.update(caller_env)
+        # the arguments the callee receives are visible as arg_<parameter>
+        cf.closure.update({'arg_' + k_: v_ for k_, v_ in (callee_env or {}).items() if isinstance(k_, str)})
         cf.old = fr.old
         cf.bound = dict(fr.bound)
         node_ord = self.call_ordinal(fr, short)
@@ -430,6 +432,10 @@ class CallMixin:
                 for key in (FS_KIND, FS_TDIR, FS_TNAME, FS_CONTENT):
                     st.heap[key] = z3.Const(fresh_name('fs'), z3.ArraySort(I, AA))
                 st.heap[FS_CTIME] = z3.Const(fresh_name('fsct'), z3.ArraySort(I, AAR))
+                continue
+            if m == 'zk':
+                for key, rng in self.ZK_KEYS.values():
+                    st.heap[key] = z3.Const(fresh_name('zk'), z3.ArraySort(I, z3.ArraySort(z3.StringSort(), rng)))
                 continue
             if m == 'clock':
                 key = ('$clock', 0)
